@@ -223,49 +223,59 @@ fn static_rank_ops<const N: usize>(ctx: &Ctx, shape: &[usize], cnt: &Cnt) {
 
 /// `get_array::<M>` / `set_array::<M>` with base index `b` along `dim`: when some index of
 /// the M-element run is out of range the call must panic; when it does not, the values
-/// read / the set of elements written must be exactly the run's.
-fn array_access<const N: usize, const M: usize>(ctx: &Ctx, t: &mut NdTensor<i32, N>, shape: &[usize], b: [usize; N], dim: usize, cnt: &Cnt) {
+/// read / the set of elements written must be exactly the run's. The tensor is a view into
+/// the middle of a larger buffer, so that an out-of-range access of a broken subject lands
+/// in the padding (and is seen there) instead of corrupting the heap.
+fn array_access<const N: usize, const M: usize>(ctx: &Ctx, _t: &mut NdTensor<i32, N>, shape: &[usize], b: [usize; N], dim: usize, cnt: &Cnt) {
+    const PAD: usize = 256;
     cnt.evals.fetch_add(2, Ordering::Relaxed);
+    let n: usize = shape.iter().product();
+    let mut buf: Vec<i32> = vec![-999; PAD + n + PAD];
+    for i in 0..n {
+        buf[PAD + i] = i as i32;
+    }
+    let before = buf.clone();
     let valid = (0..N).all(|d| if d == dim { b[d] + M <= shape[d] } else { b[d] < shape[d] });
     let case = || json!({"via": "get_array/set_array", "shape": s(shape), "base": s(&b), "dim": dim, "M": M});
-    let strides: Vec<usize> = t.strides().to_vec();
+    let mut strides = vec![0usize; N];
+    let mut acc = 1;
+    for d in (0..N).rev() {
+        strides[d] = acc;
+        acc *= shape[d];
+    }
     let off = |idx: &[usize]| -> usize { idx.iter().zip(&strides).map(|(i, st)| i * st).sum() };
-    let before: Vec<i32> = t.data().unwrap().to_vec();
-    match vp_core::catch(|| t.get_array::<M>(b, dim)) {
-        Ok(vals) => {
-            if !valid {
-                ctx.violation("NdTensor::get_array returns data for a run with an out-of-range index".to_string(), case(), format!("returned {vals:?}"));
-            } else {
-                cnt.accepted.fetch_add(1, Ordering::Relaxed);
-                for k in 0..M {
-                    let mut i = b;
-                    i[dim] += k;
-                    if vals[k] != before[off(&i)] {
+    let want: Vec<usize> = (0..M).map(|k| { let mut i = b; i[dim] += k; PAD + off(&i) }).collect();
+    {
+        let view = NdTensorView::<i32, N>::from_data(nd::<N>(shape), &buf[PAD..PAD + n]);
+        match vp_core::catch(|| view.get_array::<M>(b, dim)) {
+            Ok(vals) => {
+                if !valid {
+                    ctx.violation("NdTensor::get_array returns data for a run with an out-of-range index".to_string(), case(), format!("returned {vals:?}"));
+                } else {
+                    cnt.accepted.fetch_add(1, Ordering::Relaxed);
+                    if (0..M).any(|k| vals[k] != before[want[k]]) {
                         ctx.violation("NdTensor::get_array returns the wrong elements".to_string(), case(), format!("{vals:?}"));
-                        break;
                     }
                 }
             }
-        }
-        Err(_) => {
-            if valid {
-                ctx.observe("NdTensor::get_array panics for an in-range run");
+            Err(_) => {
+                if valid {
+                    ctx.observe("NdTensor::get_array panics for an in-range run");
+                }
             }
         }
     }
-    let r = vp_core::catch(std::panic::AssertUnwindSafe(|| t.set_array::<M>(b, dim, [-7i32; M])));
-    let after: Vec<i32> = t.data().unwrap().to_vec();
-    let changed: Vec<usize> = (0..after.len()).filter(|&i| after[i] != before[i]).collect();
-    let mut want: Vec<usize> = if valid && r.is_ok() { (0..M).map(|k| { let mut i = b; i[dim] += k; off(&i) }).collect() } else { vec![] };
-    want.sort();
+    let r = {
+        let mut view = NdTensorViewMut::<i32, N>::from_data(nd::<N>(shape), &mut buf[PAD..PAD + n]);
+        vp_core::catch(std::panic::AssertUnwindSafe(|| view.set_array::<M>(b, dim, [-7i32; M])))
+    };
+    let changed: Vec<usize> = (0..buf.len()).filter(|&i| buf[i] != before[i]).collect();
+    let mut expect: Vec<usize> = if valid && r.is_ok() { want.clone() } else { vec![] };
+    expect.sort();
     if r.is_ok() && !valid {
-        ctx.violation("NdTensor::set_array accepts a run with an out-of-range index".to_string(), case(), format!("elements changed at offsets {changed:?}"));
-    } else if changed != want {
-        ctx.violation("NdTensor::set_array changes other elements than the run's".to_string(), case(), format!("changed {changed:?}, expected {want:?}"));
-    }
-    // restore
-    if let Some(d) = t.data_mut() {
-        d.copy_from_slice(&before);
+        ctx.violation("NdTensor::set_array accepts a run with an out-of-range index".to_string(), case(), format!("buffer positions changed (storage starts at {PAD}, {n} elements): {changed:?}"));
+    } else if changed != expect {
+        ctx.violation("NdTensor::set_array changes other elements than the run's".to_string(), case(), format!("changed {changed:?}, expected {expect:?}"));
     }
 }
 
